@@ -65,6 +65,8 @@ def groups_strategy():
             g2["inherit"] = sorted(draw(st.sets(st.sampled_from(["beta3", "start", "lr", "betas", "graft"]), max_size=3)))
             g2["cfg"]["gscale"] = cfgd["groups"][0]["cfg"]["gscale"]
             cfgd["groups"].append(g2)
+        for g_ in cfgd["groups"]:
+            g_.pop("frozen", None)  # this stream assigns gradients itself, per group
         n = sum(len(g["shapes"]) for g in cfgd["groups"])
         steps = draw(st.lists(gen.st_step(n, cfgd["groups"][0]["cfg"]["gscale"], edits=False), min_size=2, max_size=8))
         return {"config": cfgd, "steps": steps}
@@ -149,10 +151,59 @@ def step_strategy_long(runner: Runner):
     return history.st_history_step(runner, force_any=False)
 
 
+# --------------------------------------------------------------------------- late start: start_preconditioning_step beyond a few hundred steps
+def late_start_strategy():
+    """Tiny models whose preconditioning starts only after 257-1100 steps (a long grafted warm-up, as in the README's examples): the warm-up, the first
+    root computation exactly at the start step and the following refreshes are all checked step by step."""
+    from hypothesis import strategies as st
+
+    @st.composite
+    def case(draw: Any) -> dict:
+        c = draw(history.st_history_config(max_groups=1, max_params=2, max_numel=8, solvers=("eigen",), kinds=("shampoo", "shampoo", "soap"),
+                                           dtypes=(("f32", "f32"), ("f64", "f64"), ("f32", "f64")), mixed_dtypes=False, lr_tensor=False))
+        c.pop("gbias", None)
+        cfg = c["groups"][0]["cfg"]
+        cfg["gscale"] = 1.0
+        cfg["lr"] = 0.0009765625
+        cfg["epsilon"] = max(cfg["epsilon"], 1e-8)
+        cfg["freq"] = draw(st.sampled_from([1, 7, 50, 64]))
+        cfg["start"] = draw(st.sampled_from([257, 258, 300, 512, 1030]))
+        if cfg["graft"] is None:
+            cfg["graft"] = {"type": "sgd"}
+        return {"config": c, "N": cfg["start"] + draw(st.sampled_from([3, 60, 130])), "seed": draw(st.integers(0, 10**5)),
+                "absent_every": draw(st.sampled_from([0, 0, 5, 13]))}
+
+    return case()
+
+
+def late_start_oracle(case: dict) -> Outcome:
+    R = Runner(case["config"])
+    if R.failed_construct:
+        R.out.failures.append(R.failed_construct)
+        return R.out
+    n = sum(len(g["shapes"]) for g in R.groups)
+    for i in range(case["N"]):
+        mask = [True] * n
+        if case["absent_every"] and i % case["absent_every"] == case["absent_every"] - 1:
+            mask = [False] * n  # an all-absent step: the group's counter must not advance
+        fails = R.step({"mask": mask, "gseed": case["seed"] + i, "gkind": "gauss", "gscale": 1.0})
+        if fails:
+            R.out.failures.extend(fails)
+            break
+        if R.dead:
+            break
+    out = R.finish()
+    out.nontrivial = R.stats["refresh_steps"] >= 1 and R.t[0] > 256
+    out.classes.append("start_step_beyond_256")
+    out.sub_evaluations = R.nsteps
+    return out
+
+
 STREAMS = {
     "history": Stream("history", machine=(config_strategy, step_strategy, Runner), quick=1600, thorough=12000, shards_quick=16, shards_thorough=16,
                       max_steps=12, max_steps_thorough=30),
     "long_history": Stream("long_history", machine=(config_strategy_long, step_strategy_long, Runner), quick=96, thorough=800, shards_quick=16, shards_thorough=16,
                            max_steps=70, max_steps_thorough=150),
+    "late_start": Stream("late_start", oracle=late_start_oracle, strategy=late_start_strategy, quick=24, thorough=240, shards_quick=8, shards_thorough=16),
     "groups": Stream("groups", oracle=groups_oracle, strategy=groups_strategy, quick=400, thorough=3000, shards_quick=8, shards_thorough=16),
 }
